@@ -41,7 +41,7 @@ TECHNIQUE = ("runtime monitoring: recorded open/resolve event log + provenance-t
              "against an executable graph-resolution model; canary files for the isolation claim")
 ASSUMPTIONS = ["basin definitions are unique per edge (distinct names), so inherited-definition "
                "skipping only affects true cycles"]
-MIN_EVALS = {"c14.offered_iff_model": 1000, "c14.open_bound": 300, "c14.remote_isolation": 8}
+MIN_EVALS = {"c14.offered_iff_model": 1000, "c14.open_bound": 300, "c14.remote_isolation": 8, "c14.unreachable_not_offered": 8}
 WATCHDOG_S = {"quick": 400, "thorough": 3000}
 IDS = ["idA", "idA-sub", "idB", None]
 
@@ -420,6 +420,29 @@ def run_remote(ctx, idx, rng, tmp):
         ctx.check("c14.remote_nested_followed", (m1 == exp1) and (m0 == exp0),
                   lambda: dict(case, userdef0=m0, userdef1=m1, features_basin=fbm),
                   message="remote basins of a local file not followed as expected")
+        # an unreachable remote basin (the resource is gone: 404 / not found) that declares its
+        # features explicitly: nothing of it may be offered
+        gone = url0.rsplit("/", 1)[0] + "/gone.rtdc"
+        l2 = tmp / "l2.rtdc"
+        declared = ["userdef7", "image"] if rng.random() < 0.7 else None
+        mk(l2, 6, [{"basin_name": "gone", "basin_type": "remote", "basin_format": "http",
+                    "basin_locs": [gone], "basin_feats": declared}])
+        try:
+            with warnings.catch_warnings():
+                warnings.simplefilter("ignore")
+                with dclab.new_dataset(l2) as dg:
+                    fbg = list(dg.features_basin)
+                    off = [f for f in ("userdef7", "image", "contour") if f in dg]
+                    own = "userdef6" in dg
+        except Exception as exc:
+            if real_sockets and is_transport_timeout(exc):
+                ctx.count("skipped_transport_timeout")
+                return case
+            raise
+        ctx.check("c14.unreachable_not_offered", not off and not fbg and own,
+                  lambda: dict(case, declared_features=declared, offered=off,
+                               features_basin=fbg, own_feature_offered=own),
+                  message=f"features of an unreachable remote basin are offered: {off or fbg}")
         # the same bytes opened locally may follow the file basin
         with warnings.catch_warnings():
             warnings.simplefilter("ignore")
